@@ -412,3 +412,54 @@ def api_defaults(ctx):
     from .common_defaults import defaults as run
     n = run(ctx, [('wallets:Wallet.create', 'sort_keys', 'True'), ('wallets:wallet_create_or_open', 'sort_keys', 'True'), ('wallets:Wallet.send', 'broadcast', 'False'), ('wallets:Wallet.send_to', 'broadcast', 'False'), ('wallets:Wallet.sweep', 'broadcast', 'False'), ('transactions:Transaction.sign', 'replace_signatures', 'False'), ('wallets:WalletTransaction.sign', 'replace_signatures', 'False')], 'cosigner wallets created with default arguments disagree on the key order / partially signed spends are pushed')
     ctx.floor(n, 6, 'parameter defaults')
+
+
+ROLE_KEYS = {'prev_txid': 'prev_txid', 'output_n': 'output_n', 'value': 'value', 'signatures': 'signatures', 'unlocking_script': 'script', 'address': 'address'}
+
+
+@PROP.obligation('C10.dict-input-tuple', canaries=[
+    mut.replace_expr('wallets', 'Wallet.transaction_import', "i['output_n']", "i['index_n']", 'imported outpoint uses the input position instead of the output number'),
+])
+def dict_input_tuple(ctx):
+    """Dictionary hand-off: Wallet.transaction_import packs every input into a tuple that Wallet.transaction_create unpacks by POSITION
+    (inp[0] previous txid, inp[1] output number, inp[2] key id, inp[3] value, inp[4] signatures, inp[5] unlocking script, inp[6] address).
+    The positions are read from transaction_create and each element of the tuple built by the import must come from the dictionary key
+    of that role - in particular the outpoint index from 'output_n', not from the neighbouring 'index_n'."""
+    from ..dfa import ReachingDefs
+    tc = ctx.repo.func('wallets:Wallet.transaction_create')
+    roles = {}
+    for a_ in ast.walk(tc):
+        if isinstance(a_, ast.Assign) and isinstance(a_.targets[0], ast.Name):
+            for sub in ast.walk(a_.value):
+                if isinstance(sub, ast.Subscript) and norm(sub.value) == 'inp' and isinstance(sub.slice, ast.Constant) and isinstance(sub.slice.value, int):
+                    roles[sub.slice.value] = a_.targets[0].id
+    ctx.saw('transaction_create reads the input tuple as %s' % dict(sorted(roles.items())))
+    if len(roles) < 6:
+        ctx.undecided('transaction_create: positional reading of input tuples not found')
+    q = 'wallets:Wallet.transaction_import'
+    fn = ctx.repo.func(q)
+    rd = ReachingDefs(fn)
+    tups = [c.args[0] for c in ast.walk(fn) if isinstance(c, ast.Call) and norm(c.func) == 'input_arr.append' and c.args and isinstance(c.args[0], ast.Tuple)]
+    if len(tups) != 1:
+        ctx.undecided('transaction_import: construction of the input tuple not found')
+    nid = rd.node_of_ast(tups[0])
+    for k, el in enumerate(tups[0].elts):
+        role = roles.get(k)
+        if role is None:
+            continue
+        if role == 'key_id':
+            continue
+        keys = sorted(set(x.slice.value for x in ast.walk(el) if isinstance(x, ast.Subscript) and norm(x.value) == 'i' and isinstance(x.slice, ast.Constant)))
+        if not keys and isinstance(el, ast.Name):
+            # a local: the dictionary keys its definitions read
+            for d in rd.reaching(nid, el.id):
+                if d.value is not None:
+                    keys += [x.slice.value for x in ast.walk(d.value) if isinstance(x, ast.Subscript) and norm(x.value) == 'i' and isinstance(x.slice, ast.Constant)]
+            keys = sorted(set(keys))
+        want = ROLE_KEYS.get(role)
+        ctx.saw('position %d (%s) <- dictionary key %s' % (k, role, keys))
+        if want is None:
+            continue
+        if want not in keys:
+            ctx.violate(q, 'position %d of the input tuple, which transaction_create reads as %s, is filled from dictionary key %s instead of %r' % (k, role, keys, want), el,
+                        'the importing cosigner rebuilds and signs a spend of prev_txid:<input position>: the earlier signature no longer matches')
